@@ -382,6 +382,15 @@ def explore(ctx):
     lpairs = pairs(LIN_BOUND_VALUES)
     ms = [[m, s] for m in MEANS for s in STDS]
     lms = [[m, s] for m in LIN_MEANS for s in STDS]
+    # generic (seed-dependent) values: one pair of bounds in both orders, one (mean, std), one lin pair
+    g = fx.rng('c08', 'generic')
+    ga, gb = [float('%.6g' % v) for v in sorted(g.uniform(-12.0, 1e3, size=2))]
+    gm, gs = float('%.6g' % g.uniform(-4.0, 1e3)), float('%.6g' % 10 ** g.uniform(-3, 0.3))
+    gl = [float('%.6g' % 10 ** v) for v in sorted(g.uniform(-12.0, 3.0, size=2))]
+    bpairs += [[ga, gb], [gb, ga]]
+    lpairs += [gl, gl[::-1]]
+    ms.append([gm, gs])
+    lms.append([gl[0], gs])
 
     # 1. direct
     direct = [{'cls': 'Uniform', 'kw': {}}, {'cls': 'LogUniform', 'kw': {}}, {'cls': 'Gaussian', 'kw': {}},
@@ -414,10 +423,10 @@ def explore(ctx):
         tms = [[1.0, 0.3], [-4.0, 2.0]] + ms
         tlms = [[1e-4, 2.0]] + lms
     else:
-        tb = [[0.8, 5.0], [-12.0, -2.0], [5.0, 0.8], [-3.0, 0.0], [0.5, 1e3], [0.0, -12.0], [1e3, -1.0]]
-        tl = [[1e-12, 1e-2], [1e3, 1e-3], [0.5, 2.0]]
-        tms = [[1.0, 0.3], [-4.0, 2.0], [1e3, 1e-3], [0.0, 0.3]]
-        tlms = [[1e-4, 2.0], [50.0, 0.3], [1.0, 1e-3]]
+        tb = [[0.8, 5.0], [-12.0, -2.0], [5.0, 0.8], [-3.0, 0.0], [0.5, 1e3], [0.0, -12.0], [1e3, -1.0], [gb, ga]]
+        tl = [[1e-12, 1e-2], [1e3, 1e-3], [0.5, 2.0], gl[::-1]]
+        tms = [[1.0, 0.3], [-4.0, 2.0], [1e3, 1e-3], [0.0, 0.3], [gm, gs]]
+        tlms = [[1e-4, 2.0], [50.0, 0.3], [1.0, 1e-3], [gl[0], gs]]
     kwsets = []          # (cls, [(key, value), ...])
     for cls in ('Uniform', 'LogUniform'):
         kwsets.append((cls, []))
@@ -434,13 +443,17 @@ def explore(ctx):
                ('LogGaussian', [('lin_mean', tlms[0][0]), ('lin_std', 100.0)]),
                ('LogGaussian', [('mean', -4.0), ('lin_std', 100.0)])]
     text = []
+    seen_text = set()
     for (cls, kw), name, br, ws, num in itertools.product(
             kwsets, ['exact', 'lower', 'upper'], ['tuple', 'list'], ['doc', 'compact', 'spaced', 'trail'],
             ['repr', 'int', 'exp']):
         has_seq = any(isinstance(v, list) for _, v in kw)
         if br == 'list' and not has_seq:
             continue
-        text.append({'cls': cls, 'kw': [[k, v] for k, v in kw], 'name': name, 'bracket': br, 'ws': ws, 'num': num})
+        c = {'cls': cls, 'kw': [[k, v] for k, v in kw], 'name': name, 'bracket': br, 'ws': ws, 'num': num}
+        if core.ohash(c) not in seen_text:
+            seen_text.add(core.ohash(c))
+            text.append(c)
     ctx.run_cases('text_case', text, phase='text')
 
     pos = [{'cls': 'Uniform', 'args': [[1.0, 2.0]]}, {'cls': 'LogUniform', 'args': [[-3.0, -1.0]]},
